@@ -26,6 +26,13 @@ func Reach(tag string)              {}
 func Carve(id string, region bool)  {}
 func Note(tag string, v ...any)     {}
 func HeldLocks() int                { return 0 }
+
+// Guard tells the lockset monitor that obj (a map, or a pointer to a variable)
+// may only be accessed while mu (pointer to a sync.Mutex / RWMutex) is held.
+func Guard(obj any, mu any, name string) {}
+
+// GuardViolations is the number of monitored accesses made without the mutex.
+func GuardViolations() int { return 0 }
 func Symbolic() bool                { return true }
 func Faults() int                   { return 0 }
 func Unsupported(why string)        {}
